@@ -62,6 +62,11 @@ def _iteration_loop(inner) -> ast.For:
 
 
 def _r1_r2_r3(ck: Checker, prog: Program, inner, outer):
+    for st in ast.walk(inner.node):
+        if isinstance(st, ast.While):
+            ck.violation("C06.R3", INNER, norm_key(st),
+                         "the iterations are driven by a `while` loop: the number of iterations is not bounded by construction "
+                         "(expected `for c in range(1, max_iterations + 1)`)", loc=inner.loc(st))
     cfg = cfg_of(inner)
     falls = cfg.falls_off_end()
     if falls:
